@@ -73,7 +73,8 @@ def strategy(cell, tier):
         st.lists(st.booleans(), min_size=24, max_size=24).map(lambda m: ["mask", m]),
         st.lists(st.integers(-6, 6), min_size=0, max_size=5).map(lambda l: ["fancy", l]),
         st.sampled_from([["ellipsis"], ["T"], ["view"], ["copy"], ["flatten"], ["ravel"], ["reshape_flat"], ["reshape_rev"],
-                         ["name"], ["synonym"], ["pickle"], ["deepcopy"], ["newaxis"], ["ellipsis_last"]]),
+                         ["name"], ["synonym"], ["pickle"], ["deepcopy"], ["newaxis"], ["ellipsis_last"], ["empty_tuple"],
+                         ["empty_list"], ["list_fancy"], ["tuple_of_lists"]]),
     )
     return st.fixed_dictionaries({
         "elems": st.lists(gen.vec(("moderate", "octant")), min_size=24, max_size=24),
@@ -258,6 +259,23 @@ def check_case(cell, case, ctx):
             elif kind == "ellipsis":
                 if not same_array(arr[...], plain[...], "arr[...]", "getitem_ellipsis"):
                     return
+            elif kind == "empty_tuple":
+                # the empty index expression selects the whole array
+                if not same_array(arr[()], plain[()], "arr[()]", "getitem_empty"):
+                    return
+            elif kind == "empty_list":
+                if not same_array(arr[[]], plain[[]], "arr[[]]", "getitem_empty"):
+                    return
+            elif kind == "list_fancy":
+                if shape[0]:
+                    key = [0, shape[0] - 1, 0]
+                    if not same_array(arr[key], plain[key], f"arr[{key}]", "getitem_fancy"):
+                        return
+            elif kind == "tuple_of_lists":
+                if all(shape):
+                    key = tuple([0, s_ - 1] for s_ in shape)
+                    if not same_array(arr[key], plain[key], f"arr[{key}]", "getitem_fancy"):
+                        return
             elif kind == "ellipsis_last":
                 if n and shape[-1]:
                     if not same_array(arr[..., 0], plain[..., 0], "arr[..., 0]", "getitem_ellipsis"):
@@ -348,6 +366,15 @@ def check_case(cell, case, ctx):
             if vals != rows[0]:
                 fail("array_form", f"{what}: holds {vals}, object stores {rows[0]}", "array_form")
                 return
+            if a.shape == ():
+                # the full index of a 0-d array is the empty tuple: it gives back the vector object
+                try:
+                    el = a[()]
+                except Exception as e:  # noqa: BLE001
+                    fail("exception", f"{what}[()] raised {type(e).__name__}: {e!s:.200}", "getitem_full")
+                    return
+                if not same_object(el, a.view(numpy.ndarray)[()], f"{what}[()]", "getitem_full"):
+                    return
         ctx.evaluation()
         p = numpy.asarray(ob)
         if type(p) is not numpy.ndarray or p.dtype.names != names:
